@@ -66,7 +66,47 @@ pub fn mutate(ctx: &mut Ctx, name: &str, w: &Wr) -> Mutated {
     if n == 0 {
         return Mutated { bytes, after: After::Nothing, kind: "none", desc: "empty".into() };
     }
-    let kind = ctx.choose("mut_kind", 13);
+    let kind = ctx.choose("mut_kind", 16);
+    if kind >= 13 {
+        // bytes inserted, removed or repeated in the middle of the message: everything behind moves
+        let orig = bytes.clone();
+        let extent = |w: &Wr, fi: usize| -> (usize, usize) {
+            let f = &w.fields[fi];
+            let end = if f.width > 0 { f.off + f.width } else { w.fields.get(fi + 1).map(|g| g.off).unwrap_or(n) };
+            (f.off, end.max(f.off))
+        };
+        let (k, desc): (&'static str, String) = match kind {
+            13 => {
+                let at = if !w.fields.is_empty() && ctx.chance("ins_at_field", 3, 4) { w.fields[ctx.choose("mut_field", w.fields.len() as u64) as usize].off } else { ctx.choose("mut_pos", n as u64 + 1) as usize };
+                let count = *ctx.pick("ins_count", &[1usize, 1, 2, 3, 4, 8, 16, 64, 300]);
+                let fill: Vec<u8> = match ctx.choose("ins_fill", 4) {
+                    0 => vec![0x00; count],
+                    1 => vec![0xff; count],
+                    2 => vec![0x80; count],
+                    _ => { let g = ctx.bytes("ins_bytes", count.min(8)); g.iter().cycle().take(count).cloned().collect() }
+                };
+                bytes.splice(at..at, fill);
+                ("insert", format!("{} +{}@{}", name, count, at))
+            }
+            14 => {
+                let (a, b) = if !w.fields.is_empty() && ctx.chance("del_field", 3, 4) { extent(w, ctx.choose("mut_field", w.fields.len() as u64) as usize) } else { let a = ctx.choose("mut_pos", n as u64) as usize; (a, (a + 1 + ctx.choose("del_count", 8) as usize).min(n)) };
+                bytes.drain(a..b);
+                ("delete", format!("{} -[{}..{})", name, a, b))
+            }
+            _ => {
+                let (a, b) = if !w.fields.is_empty() { extent(w, ctx.choose("mut_field", w.fields.len() as u64) as usize) } else { let a = ctx.choose("mut_pos", n as u64) as usize; (a, (a + 1 + ctx.choose("del_count", 8) as usize).min(n)) };
+                let times = *ctx.pick("dup_times", &[1usize, 1, 2, 3, 50]);
+                let piece: Vec<u8> = bytes[a..b].to_vec();
+                if piece.len() * times <= 40_000 {
+                    let rep: Vec<u8> = piece.iter().cycle().take(piece.len() * times).cloned().collect();
+                    bytes.splice(b..b, rep);
+                }
+                ("repeat_field", format!("{} [{}..{}) x{}", name, a, b, times + 1))
+            }
+        };
+        if ctx.chance("fix_outer_length", 3, 4) { fix_outer_length(&mut bytes, &orig); }
+        return Mutated { bytes, after: After::Nothing, kind: k, desc };
+    }
     if kind == 12 {
         // the length of one BER/DER element re-encoded in a hostile form (C05: connect response; C07: TSRequest)
         let start = if w.fields.first().map(|f| f.name.starts_with("der.")).unwrap_or(false) {
@@ -169,6 +209,23 @@ pub fn mutate(ctx: &mut Ctx, name: &str, w: &Wr) -> Mutated {
     }
 }
 
+/// after a mutation that changed the size of a message: rewrite the outermost length (TPKT, or the fast-path length
+/// in the form the original used) so that the reader takes in the whole mutated message
+fn fix_outer_length(bytes: &mut Vec<u8>, orig: &[u8]) {
+    let n = bytes.len();
+    if orig.len() >= 4 && bytes.len() >= 4 && orig[0] == 3 && bytes[0] == 3 && ((orig[2] as usize) << 8 | orig[3] as usize) == orig.len() {
+        if n <= 0xffff { bytes[2] = (n >> 8) as u8; bytes[3] = n as u8; }
+        return;
+    }
+    if orig.len() >= 3 && bytes.len() >= 3 && orig[0] & 3 == 0 && orig[0] == bytes[0] {
+        if orig[1] & 0x80 != 0 && (((orig[1] & 0x7f) as usize) << 8 | orig[2] as usize) == orig.len() {
+            if n <= 0x7fff { bytes[1] = 0x80 | (n >> 8) as u8; bytes[2] = n as u8; }
+        } else if orig[1] as usize == orig.len() && n < 0x80 {
+            bytes[1] = n as u8;
+        }
+    }
+}
+
 // ---------------------------------------------------------------------------------------- BER/DER lengths
 
 #[derive(Clone)]
@@ -262,6 +319,29 @@ pub fn tlv_length_attack(ctx: &mut Ctx, data: &[u8]) -> Option<(Vec<u8>, String)
     {
         let mut c = 0usize;
         let _ = serialise_tlvs(&forest, target, &[0], false, &mut c, &mut real);
+    }
+    if ctx.chance("tlv_leaf_resize", 1, 5) {
+        // a primitive element (INTEGER, ENUMERATED, BOOLEAN, OCTET STRING) gets another size, lengths kept consistent
+        fn leaves(nodes: &mut [Tlv], out: &mut Vec<*mut Tlv>) {
+            for n in nodes.iter_mut() {
+                if n.children.is_some() { leaves(n.children.as_mut().unwrap(), out); } else { out.push(n as *mut Tlv); }
+            }
+        }
+        let mut forest = forest;
+        let mut ls = Vec::new();
+        leaves(&mut forest, &mut ls);
+        if !ls.is_empty() {
+            let li = ctx.choose("tlv_leaf", ls.len() as u64) as usize;
+            let size = *ctx.pick("tlv_leaf_size", &[0usize, 1, 2, 3, 4, 5, 8, 9, 16, 17, 127, 128, 255, 256, 70000]);
+            let fill = *ctx.pick("tlv_leaf_fill", &[0x00u8, 0xff, 0x80, 0x7f, 0x01]);
+            // the pointers come from the forest just above and nothing else touches it meanwhile
+            unsafe { (*ls[li]).leaf = vec![fill; size]; }
+            let mut c = 0usize;
+            let mut r = 0usize;
+            let out = serialise_tlvs(&forest, usize::MAX, &[], true, &mut c, &mut r);
+            return Some((out, format!("leaf#{} resized to {} x {:#04x}", li, size, fill)));
+        }
+        return None;
     }
     let n = *ctx.pick("tlv_octets", &[1usize, 2, 3, 4, 5, 7, 8, 8, 8, 8, 9, 16, 126, 127]);
     let class = ctx.choose("tlv_value_class", 10);
